@@ -6,6 +6,7 @@ CONSTANTS
   ASIS = FALSE
   ALPHA = "reduced"
   MAXLEN = 10
+  GUARD = TRUE
 INVARIANT Inv
 PROPERTY MCIsolation
 VIEW MCView
